@@ -82,6 +82,11 @@ def rand_template(rnd, nargs):
         items.append("$%d AS c%d" % (n, len(items)))
         if rnd.random() < 0.3:
             items.append(rnd.choice(SEGMENTS[:6]).strip() + " AS s%d" % len(items) if rnd.random() < 0.5 else "1 " + rnd.choice(SEGMENTS[2:5]))
+    if rnd.random() < 0.15:
+        # the lexer's other literal forms: `e'…'` escape strings (a backslash swallows the next character), a quote that
+        # follows a word ending in e / E, doubled double quotes, an unterminated literal at the end
+        items.append(rnd.choice(["e'$1 \\' q'", "E'x\\\\' , $2", "type'$2'", "NAME'it''s $1'", "e''", "\"a\"\"$1\"", "E'\\", "e'a\\'b' , $1",
+                                 "'$1"]) + (" AS x%d" % len(items) if rnd.random() < 0.5 else ""))
     if not items:
         items.append("1 AS one")
     parts.append(", ".join(items))
